@@ -231,13 +231,18 @@ theorem wReturns_shape (s : Sig) : ∀ (gs : List (List V)) (w w' : WS) (i : Nat
       · exact good_wAndReturn _ _ _ _ h1
     · exact wReturns_shape s rest _ _ _ _ h
 
-theorem good_wIn (s : Sig) (m : Bool) (w : WS) : ∀ (gs : List (List V × Bool)) (hit : Bool), Good (wIn s m w gs hit)
-  | [], hit => by unfold wIn; exact good_pure _
-  | (g, h) :: rest, hit => by
+theorem good_inParam (s : Sig) (m : Bool) (i : Nat) (a : InArg) : Good (inParam s m i a) := by
+  unfold inParam; good_leaf
+
+theorem good_wIn (s : Sig) (m : Bool) (w : WS) : ∀ (gs : List (InArg × Bool)) (i : Nat) (hit : Bool), Good (wIn s m w gs i hit)
+  | [], i, hit => by unfold wIn; exact good_pure _
+  | (g, h) :: rest, i, hit => by
     unfold wIn
     split
-    · exact good_wIn s m w rest _
-    all_goals good_leaf
+    · rename_i e he; intro r hr; simp only [Except.error.injEq] at hr; subst hr; exact good_inParam _ _ _ _ _ he
+    · split
+      · exact good_wIn s m w rest _ _
+      all_goals good_leaf
 
 theorem wMatches_shape (s : Sig) (m : Bool) : ∀ (ps : List (List V × Bool × List V)) (w w' : WS) (e : Rej),
     wMatches s m w ps = (w', .error e) → e.shape = true
@@ -275,11 +280,12 @@ theorem whenStep_shape (s : Sig) (m : Bool) (w w' : WS) (st : Step) (e : Rej)
   | in_ gs =>
     simp only [whenStep] at h; split at h
     · simp [pure, Except.pure] at h
-    · rename_i e1 h1; simp only [Prod.mk.injEq, Except.error.injEq] at h; obtain ⟨_, rfl⟩ := h; exact good_wIn _ _ _ _ _ _ h1
+    · rename_i e1 h1; simp only [Prod.mk.injEq, Except.error.injEq] at h; obtain ⟨_, rfl⟩ := h; exact good_wIn _ _ _ _ _ _ _ h1
   | matchPairs ps => exact wMatches_shape _ _ _ _ _ _ h
   | again => simp [whenStep, pure, Except.pure] at h
   | lookup n f => simp [whenStep, pure, Except.pure] at h
   | asFn f => simp [whenStep, pure, Except.pure] at h
+  | holder hm => simp [whenStep, pure, Except.pure] at h
   | apply cb => simp [whenStep, pure, Except.pure] at h
 
 
